@@ -3,6 +3,13 @@
 package obfs4
 
 import (
+	"bytes"
+	"crypto/hmac"
+	"crypto/rand"
+	"crypto/sha256"
+	"strconv"
+	"time"
+
 	"github.com/refraction-networking/conjure/pkg/transports"
 	"github.com/refraction-networking/obfs4/common/ntor"
 )
@@ -34,4 +41,39 @@ func VerifMark(r transports.Registration, rep []byte) []byte {
 // VerifConsts reports the handshake length constants WrapConnection uses.
 func VerifConsts() (minHandshake, markStart, maxHandshake, markLen, macLen int) {
 	return ClientMinHandshakeLength, ntor.RepresentativeLength + ClientMinPadLength, MaxHandshakeLength, MarkLength, MacLength
+}
+
+// VerifClientFlight (overlay only) hand-builds a valid obfs4 client handshake for the registration
+// with exactly padLen bytes of padding (the obfs4 client draws the length uniformly from
+// [ClientMinPadLength, ClientMaxPadLength]; its extremes are practically never drawn):
+//   X' | P_C | M_C | MAC(X' | P_C | M_C | E),  M_C = HMAC(B|NODEID, X'),  E = epoch hour.
+func VerifClientFlight(r transports.Registration, padLen int) []byte {
+	if VerifMark(r, make([]byte, ntor.RepresentativeLength)) == nil {
+		return nil
+	}
+	k := r.TransportKeys().(Obfs4Keys)
+	kp, err := ntor.NewKeypair(true)
+	if err != nil {
+		return nil
+	}
+	mac := hmac.New(sha256.New, append(k.PublicKey.Bytes()[:], k.NodeID.Bytes()[:]...))
+	rep := kp.Representative().Bytes()[:]
+	mac.Write(rep)
+	mark := mac.Sum(nil)[:MarkLength]
+	pad := make([]byte, padLen)
+	_, _ = rand.Read(pad)
+	var b bytes.Buffer
+	b.Write(rep)
+	b.Write(pad)
+	b.Write(mark)
+	mac.Reset()
+	mac.Write(b.Bytes())
+	mac.Write([]byte(strconv.FormatInt(time.Now().Unix()/3600, 10)))
+	b.Write(mac.Sum(nil)[:MacLength])
+	return b.Bytes()
+}
+
+// VerifPadRange reports the legal client padding lengths and the shortest server handshake.
+func VerifPadRange() (minPad, maxPad, serverMin int) {
+	return ClientMinPadLength, ClientMaxPadLength, ServerMinHandshakeLength
 }
